@@ -501,7 +501,7 @@ func isExplicit(oid string) bool {
 		return false
 	}
 	k := oid[i+1:]
-	for _, p := range []string{"post.", "inv.", "dec.", "lemma.", "ghost."} {
+	for _, p := range []string{"post.", "inv.", "dec.", "lemma.", "ghost.", "exit."} {
 		if strings.HasPrefix(k, p) {
 			return true
 		}
